@@ -309,7 +309,11 @@ fn run_redo() -> (Result<(), Error>, Option<StdinLogReader>) {
             |_, _| -> Result<(bool, Dirtiness), Infallible> { Ok((true, Dirtiness::Dirty)) },
         ));
         assert!(ps.is_flushed());
-        let return_tokens_result = server.force_return_tokens();
+        let settled = server.block_on(server.handle().settle_with_make_parent());
+        if let Err(e) = &settled {
+            log_err!("unexpected error: {}", e);
+        }
+        let return_tokens_result = settled.and(server.force_return_tokens());
         if let Err(e) = &return_tokens_result {
             log_err!("unexpected error: {}", e);
         }
